@@ -1016,6 +1016,51 @@ async def run_join_limit(world: World, spec):
     return True, {"final": world.tables_empty(), "held": held}
 
 
+async def run_race(world: World, spec):
+    """sub-instant interleavings: the removal of an exit socket starts k event-loop iterations after the FIRST data cell
+    of its circuit was sent, i.e. while enable() may still be opening the outside sockets (the clock does not move in
+    between).  Variant `remove_now`: remove_exit_socket(remove_now=True, destroy) at the exit (the path on_created and
+    unload use); variant `destroy0`: remove_tunnel_delay = 0 on every node and the originator sends its destroy right
+    behind the data cell.  One new circuit per k, all in one world (a node holds entries of several circuits)."""
+    await world.build([False] + [True] * (spec["nodes"] - 1))
+    t = odd(world.ticks() + 4)
+    await asyncio.sleep((t - world.ticks()) / TPS)
+    circuits = []
+    for k in spec["ks"]:
+        c = world.create_circuit(1, spec["hops"])
+        if c is None:
+            raise InfraError("create_circuit returned None")
+        circuits.append(c)
+        await asyncio.sleep(32 / TPS)
+        p = world.path(1, c.circuit_id)
+        ex = [h for h in p if h[1] == "exit"]
+        if not ex or c.state != "READY":
+            raise InfraError("race scenario: circuit not built")
+        world.user_data(1, c)
+        for _ in range(k):
+            await asyncio.sleep(0)
+        es = world.ov(ex[0][0]).exit_sockets.get(ex[0][2])
+        world.count(f"race:{spec['variant']}:k={k}:enabled_at_removal={int(bool(es is not None and es.enabled))}:"
+                    f"transports_assigned={int(es is not None and es.transport_ipv4 is not None) + int(es is not None and es.transport_ipv6 is not None)}")
+        if spec["variant"] == "remove_now":
+            world.remove_exit(ex[0][0], ex[0][2], True, remove_now=True)
+        else:
+            world.remove_circuit(1, c.circuit_id, True)
+        await asyncio.sleep(32 / TPS)
+    meta = world.meta
+    B = meta["max_time_inactive"] + SWEEP_ALLOWANCE_S + meta["remove_tunnel_delay"]
+    now = world.ticks()
+    cp = now + ((2 - now) % 4)
+    end = cp + int(3 * B) * TPS
+    while True:
+        await asyncio.sleep((cp - world.ticks()) / TPS)
+        world.checkpoint()
+        if cp >= end:
+            break
+        cp += TPS
+    return True, {"final": world.tables_empty()}
+
+
 async def run_age_limit(world: World, spec):
     """a healthy, pinged circuit is kept for longer than max_time: the AGE limit (not inactivity) must reclaim the
     originator's circuit and the exit socket although every heart keeps beating; the relay routes follow by inactivity"""
@@ -1101,7 +1146,10 @@ def run_case(ctx: Ctx, spec, use_model: bool, kind="scenario"):
     loop = vclock.VLoop()
     asyncio.set_event_loop(loop)
     vclock.install(loop)
-    world = World(wrng, spec.get("nodes", 5))
+    world = World(wrng, spec.get("nodes", 5),
+                  settings_patch={"remove_tunnel_delay": 0} if spec.get("variant") == "destroy0" else None)
+    if spec.get("variant") == "destroy0":
+        world.flat.append(("delay 0", None, None))
     world.loop = loop
     world.base = loop.time()
     world.meta = META
@@ -1131,6 +1179,8 @@ def run_case(ctx: Ctx, spec, use_model: bool, kind="scenario"):
                     return await run_relay_early(world, spec)
                 if kind == "age":
                     return await run_age_limit(world, spec)
+                if kind == "race":
+                    return await run_race(world, spec)
                 return await run_scenario(world, spec)
             finally:
                 await world.shutdown()
@@ -1261,6 +1311,10 @@ def run_all(ctx: Ctx, n_random, use_model, with_exhaustive):
                                                    "wanting": "none"}), use_model)
             idx += 1
         run_case(ctx, {"nodes": 4, "hops": 2}, use_model, kind="age")
+        for hops in (1, 2, 3):
+            for variant in ("remove_now", "destroy0"):
+                run_case(ctx, {"nodes": 5, "hops": hops, "variant": variant, "ks": list(range(0, 10))}, use_model,
+                         kind="race")
         run_case(ctx, {"nodes": 4, "over": 5, "relayed": 0}, use_model, kind="join")
         run_case(ctx, {"nodes": 4, "over": 3, "relayed": 2}, use_model, kind="join")
         for hops in (2, 3):
@@ -1279,7 +1333,7 @@ def run_all(ctx: Ctx, n_random, use_model, with_exhaustive):
 def run(ctx: Ctx):
     if ctx.replay_input is not None:
         return replay(ctx, ctx.replay_input)
-    run_all(ctx, ctx.scale(240, 400), ctx.model_ok, ctx.thorough())
+    run_all(ctx, ctx.scale(200, 400), ctx.model_ok, ctx.thorough())
 
 
 def search(ctx: Ctx, reason: str):
